@@ -134,14 +134,42 @@ section quadratic
 variable {K : Type} [Field K]
 
 /-- **the code's quadratic**: for σ = a + b i, `ν = ½ (1/(λ−σ) + 1/(λ−σ̄))` iff `ν ((λ−a)² + b²) = λ − a`; and with a square-root
-    witness `s² = 1 − 4 b² ν²` the solutions are exactly the two candidates of the code,
-    `root_part1 ± root_part2 = a + 1/(2ν) ± s/(2ν)`. -/
+    witness `s² = 1 − 4 b² ν²` (`sqrt_disc`, `1 + s ≠ 0`: the principal root has a non-negative real part) the solutions are exactly the
+    two candidates of the code (as computed since 0117f45),
+    `root1 = root_part1 + root_part2 = a + 1/(2ν) + s/(2ν)` and `root2 = m_sigmar + (2 σi σi) ν / (1 + sqrt_disc)`;
+    the latter IS `root_part1 − root_part2` (third conjunct: the form used before the repair, `c02_quadratic_root2`). -/
 theorem c02_quadratic (a b i lam ν s : K) (hi : i * i = -1) (h2 : (2 : K) ≠ 0)
-    (h1 : lam - (a + b * i) ≠ 0) (h1c : lam - (a - b * i) ≠ 0) (hν : ν ≠ 0) (hs : s * s = 1 - 4 * b ^ 2 * ν ^ 2) :
+    (h1 : lam - (a + b * i) ≠ 0) (h1c : lam - (a - b * i) ≠ 0) (hν : ν ≠ 0) (hs : s * s = 1 - 4 * b ^ 2 * ν ^ 2)
+    (h1s : 1 + s ≠ 0) :
     (ν = (1 / 2) * (1 / (lam - (a + b * i)) + 1 / (lam - (a - b * i))) ↔ ν * ((lam - a) ^ 2 + b ^ 2) = lam - a) ∧
     (ν * ((lam - a) ^ 2 + b ^ 2) = lam - a ↔
+      lam = a + 1 / (2 * ν) + s / (2 * ν) ∨ lam = a + (2 * b * b) * ν / (1 + s)) ∧
+    (ν * ((lam - a) ^ 2 + b ^ 2) = lam - a ↔
       lam = a + 1 / (2 * ν) + s / (2 * ν) ∨ lam = a + 1 / (2 * ν) - s / (2 * ν)) :=
-  ⟨C02A.cs_nu_iff a b i lam ν hi h2 h1 h1c, C02A.cs_roots a b lam ν s h2 hν hs⟩
+  ⟨C02A.cs_nu_iff a b i lam ν hi h2 h1 h1c, C02A.cs_roots_stable a b lam ν s h2 hν hs h1s, C02A.cs_roots a b lam ν s h2 hν hs⟩
+
+/-- **the repaired second root**: `m_sigmar + (Scalar(2) * m_sigmai * m_sigmai) * nu / (Scalar(1) + sqrt_disc)` equals
+    `root_part1 − root_part2` over any field (given `sqrt_disc² = 1 − 4 σi² ν²`, `1 + sqrt_disc ≠ 0`, `ν ≠ 0`), and together with
+    `root1` it still has product `σi²` with it (Vieta) — so whichever candidate `sort_ritzpair` returns is a root of the quadratic
+    (`c02_quadratic`). What the repair changes is rounding only: no difference of two numbers of size `1/(2|ν|)` is formed. -/
+theorem c02_quadratic_root2 (a b ν s : K) (h2 : (2 : K) ≠ 0) (hν : ν ≠ 0) (hs : s * s = 1 - 4 * b ^ 2 * ν ^ 2)
+    (h1s : 1 + s ≠ 0) :
+    a + (2 * b * b) * ν / (1 + s) = a + 1 / (2 * ν) - s / (2 * ν) ∧
+    (1 / (2 * ν) + s / (2 * ν)) * ((2 * b * b) * ν / (1 + s)) = b ^ 2 :=
+  ⟨C02A.cs_root2_stable a b ν s h2 hν hs h1s, C02A.cs_roots_product_stable b ν s h2 hν h1s⟩
+
+/-- **the clause finding C02-resigma-cancellation violated**: for the eigenvalue AT `Re σ` the transformed value is `ν = 0`; the
+    code's second candidate is then `Re σ` EXACTLY (for every value of `sqrt_disc`, no hypothesis: nothing is divided by `ν`), and
+    `Re σ` is the unique solution of the quadratic for `ν = 0` — before the repair the candidate was `(a + 1/(2ν)) − s/(2ν)`, which is
+    not even defined at `ν = 0` and is the difference of two numbers ~ `1/|ν|` next to it. -/
+theorem c02_quadratic_nu_zero (a b lam s : K) :
+    a + (2 * b * b) * 0 / (1 + s) = a ∧ ((0 : K) * ((lam - a) ^ 2 + b ^ 2) = lam - a ↔ lam = a) :=
+  C02A.cs_root2_nu_zero a b lam s
+
+/-- the hypotheses are satisfiable: σ = i, ν = 2/5, sqrt_disc = 3/5, root1 = 2, root2 = 1/2 (product 1 = σi²) -/
+example : (3 / 5 : ℚ) * (3 / 5) = 1 - 4 * 1 ^ 2 * (2 / 5) ^ 2 ∧ (1 : ℚ) + 3 / 5 ≠ 0 ∧
+    (0 : ℚ) + (2 * 1 * 1) * (2 / 5) / (1 + 3 / 5) = 1 / 2 ∧ (0 : ℚ) + 1 / (2 * (2 / 5)) - (3 / 5) / (2 * (2 / 5)) = 1 / 2 := by
+  norm_num
 
 /-- Vieta: the two candidates `t = λ − a` have product `b²` and sum `1/ν` (so the "other root" is `a + b²/(λ − a)`) -/
 theorem c02_quadratic_roots (b ν s : K) (h2 : (2 : K) ≠ 0) (hν : ν ≠ 0) (hs : s * s = 1 - 4 * b ^ 2 * ν ^ 2) :
